@@ -1,5 +1,6 @@
 import Enc.Model.Proto
 import Enc.Model.ProtoTo
+import Enc.Model.ProtoAlloc
 import Enc.Spec.Protobuf
 import Enc.Spec.Known
 import Enc.Driver.ProtoScan
@@ -47,8 +48,34 @@ def walkChain : Nat → Val → Nat → Nat × Int × Val
     | _ => (n + 1, v, lf)
   | _, _, n => (n, 0, .nil)
 
+/-! ### allocation accounting (`proto.allocm`)
+slack of the correspondence `measured ≤ 3/2 · modelAlloc + allocC0`: size-class rounding of the Go allocator and the
+one-off runtime costs of a call (boxing in `fmt.Errorf`, `sync.Pool` bookkeeping). Measured on 13 000 thorough cases:
+median measured/model = 0.83, and `measured − 3/2·model ≤ 15` bytes everywhere. -/
+def allocC0 : Nat := 512
+
 def handle (op : String) (args : List String) : Option (String × String × String) :=
   match op, args with
+  -- proto.allocm <type> <hex> <measured>: the third argument is the TotalAlloc delta the harness measured on the real code.
+  -- M = layout and bound constants of the type, then the verdict of the two inequalities (distinct texts when one fails)
+  | "proto.allocm", [ty, h, meas] => do
+    let ty ← Ty.parse ty
+    let b ← fromHex h
+    let meas ← meas.toNat?
+    let c := Model.Proto.codecOf ty
+    let a := (Model.Proto.unmarshalA ty b).2
+    let bound := c.K * b.length + c.K0
+    let verdict :=
+      if a > bound then s!"model={a}>bound={bound}"
+      else if 2 * meas > 3 * a + 2 * allocC0 then s!"meas={meas}>1.5*model={a}+{allocC0}"
+      else "ok"
+    pure (s!"sz={Enc.sizeOfTy ty};csz={c.sz};K={c.K};K0={c.K0};{verdict}", "-", "")
+  -- proto.allocnum <type> <hex>: the model's count alone (inspection / replay aid)
+  | "proto.allocnum", [ty, h] => do
+    let ty ← Ty.parse ty
+    let b ← fromHex h
+    let r := Model.Proto.unmarshalA ty b
+    pure (s!"alloc={r.2};" ++ showDec ty r.1, "-", "")
   | "proto.varint", [n] => do
     let n ← n.toNat?
     let m := Model.Proto.encodeVarint (BitVec.ofNat 64 n)
